@@ -192,7 +192,23 @@ func (env *SpecEnv) state() *State {
 	return env.st
 }
 
-func (env *SpecEnv) eval(x *SExpr) *SV {
+func (env *SpecEnv) eval(x *SExpr) (res *SV) {
+	nerr := len(env.e.specErrors)
+	defer func() {
+		// a sub-expression that does not bind (unknown identifier ...) evaluates to nil; operators that then fail on it
+		// are a consequence of that reported error, not an engine failure
+		if r := recover(); r != nil {
+			if len(env.e.specErrors) > nerr {
+				res = nil
+				return
+			}
+			panic(r)
+		}
+	}()
+	return env.eval0(x)
+}
+
+func (env *SpecEnv) eval0(x *SExpr) *SV {
 	e := env.e
 	switch x.Op {
 	case "num":
@@ -1015,6 +1031,26 @@ func (env *SpecEnv) evalCall(x *SExpr) *SV {
 				return nil
 			}
 			return &SV{V: scalar(app(e.fpConvFuns(), a.V.L[0])), T: types.Typ[types.Float64]}
+		case "same":
+			// same(a, b): identical values (SMT equality; for floats NaN is the same as NaN, unlike ==)
+			a, b := env.eval(args[0]), env.eval(args[1])
+			if a == nil || b == nil || len(a.V.L) != len(b.V.L) {
+				env.errorf("same() needs two values of one type")
+				return boolSV("false")
+			}
+			var cs []string
+			for i := range a.V.L {
+				cs = append(cs, eq(a.V.L[i], b.V.L[i]))
+			}
+			return boolSV(and(cs...))
+		case "toint":
+			// toint(x): the int64 a Go conversion of the float64 x yields (unconstrained when x is out of range)
+			a := env.eval(args[0])
+			if a == nil {
+				return nil
+			}
+			e.fpConvFuns()
+			return mathSV(app("f2i64", a.V.L[0]))
 		case "isnan":
 			a := env.eval(args[0])
 			return boolSV("(fp.isNaN " + a.V.L[0] + ")")
